@@ -13,6 +13,18 @@ CLAIMED = {
  'C20': ('every _Configuration operation verified against the three-map view (declarations, loaded, flags) from an arbitrary pre-state: lookup precedence, '
          'contains/getattr/holder/_asdict agreement, loading rule with loop invariants, reset, declare, setattr, save_and_restore wrapper on normal and exceptional exits',
          'yaml parsing and file reading trusted; @threads.synchronized taken as locking only; load_flag_values loop not under contract'),
+ 'C05': ('decision table of PhaseState.finalize (result kind x measurements x stop_on_measurement_fail x diagnosers) with its helpers, result validation in the '
+         'phase thread, join_or_die (stored outcome wins, no false timeout), one record per invocation in _execute_phase_once, run_if rules, '
+         'repeat loop bound (at most repeat_limit invocations) with loop invariants; skip_phase',
+         'thread start/join, the user phase body, run_if and diagnosers are opaque (trusted model: contracts/_trusted.py, frame assumption *user); '
+         'DiagnosesManager._convert_result (generator) is assumed, not verified; known finding: ERROR record left behind by forced repeats'),
+ 'C13': ('header = six little-endian words (command, arg0, arg1, length, byte sum, command xor 0xFFFFFFFF), receipt validation '
+         '(short/empty header, unknown command, length or checksum mismatch are rejected), payload-after-header on every exit, '
+         'every transport write/read inside one critical section of the writer/reader lock',
+         'struct.pack/unpack and the raw transport are trusted models; non-interleaving of two writers follows from the lock obligations by the standard monitor lemma (manual); read_until not under contract'),
+ 'C17': ('ghost file-system invariant "the destination only ever receives the complete serialization", checked after every file-system operation of '
+         'Atomic, OutputToFile.__call__ (str and chunked serializers, serializer failing after k chunks, every write/close/move failing) and atomic_write',
+         'file-system model is trusted (atomic rename on one file system, buffered writes reach the file as a prefix until close succeeds)'),
 }
 props = [json.loads(l) for l in open(os.path.join(V, 'properties.jsonl'))]
 m = {
